@@ -177,6 +177,9 @@ func Command(o CmdOpts) *rapid.Generator[database.Command] {
 				c.Pipeline = true
 			case 1:
 				c.Command += rapid.SampledFrom([]string{" | ", " && ", " >> ", " pipe "}).Draw(t, "pipe-op") + w.Draw(t, "pipe-rhs")
+			case 2:
+				// redirections and background jobs that look like pipeline operators but are none
+				c.Command += rapid.SampledFrom([]string{" 2>&1", " &> out.log", " > out", " 2> err", " &", " < in", " >&2", " >& f", " 1>&2 > x", " & disown"}).Draw(t, "pipe-lookalike")
 			}
 		}
 		return c
@@ -242,6 +245,49 @@ func DB(t *rapid.T, o CmdOpts, classes []int) ([]database.Command, DBClass) {
 		if cls == "large" {
 			n = rapid.IntRange(550, 1200).Draw(t, "large-n")
 		}
+		return Bulk(t, n, o), cls
+	}
+}
+
+// Ubiquitous puts one shared word into (nearly) every entry of cmds, in a field drawn per
+// entry: a query for it matches the whole database and its inverse document frequency is
+// as small as it can get. Returns the word ("" when nothing was done).
+func Ubiquitous(t *rapid.T, cmds []database.Command) string {
+	if len(cmds) < 2 {
+		return ""
+	}
+	w := rapid.SampledFrom([]string{"docker", "common", "cmd", "tool", "sudo"}).Draw(t, "ubiquitous-word")
+	skip := -1
+	if rapid.Bool().Draw(t, "all-but-one") {
+		skip = rapid.IntRange(0, len(cmds)-1).Draw(t, "ubiquitous-skip")
+	}
+	field := rapid.IntRange(0, 4).Draw(t, "ubiquitous-field")
+	for i := range cmds {
+		if i == skip {
+			continue
+		}
+		f := field
+		if f == 4 {
+			f = i % 4
+		}
+		switch f {
+		case 0:
+			cmds[i].Command = w + " " + cmds[i].Command
+		case 1:
+			cmds[i].Description += " " + w
+		case 2:
+			cmds[i].Keywords = append(append([]string{}, cmds[i].Keywords...), w)
+		default:
+			cmds[i].Tags = append(append([]string{}, cmds[i].Tags...), w)
+		}
+	}
+	return w
+}
+
+// Bulk builds n entries combinatorially from a few drawn parts (many entries share words,
+// so single-word queries match dozens to hundreds of entries).
+func Bulk(t *rapid.T, n int, o CmdOpts) []database.Command {
+	{
 		parts := rapid.SliceOfN(Word(), 6, 12).Draw(t, "medium-parts")
 		out := make([]database.Command, n)
 		for i := range out {
@@ -258,7 +304,7 @@ func DB(t *rapid.T, o CmdOpts, classes []int) ([]database.Command, DBClass) {
 				out[i].Pipeline = true
 			}
 		}
-		return out, cls
+		return out
 	}
 }
 
@@ -357,16 +403,16 @@ func Query(t *rapid.T, cmds []database.Command, allow []QueryClass) (string, Que
 
 // OptSpec tunes Options().
 type OptSpec struct {
-	N            int  // database size (for limit choices)
-	BigLimit     bool // force Limit >= N
-	NoPlatforms  bool // AllPlatforms=true always (eligibility out of scope)
-	NoPipeline   bool // PipelineOnly=false
-	FixNLP       *bool
-	FixFuzzy     *bool
-	NoBoosts     bool
-	BoostWords   []string
-	Thresholds   []int
-	NoNegLimit   bool
+	N           int  // database size (for limit choices)
+	BigLimit    bool // force Limit >= N
+	NoPlatforms bool // AllPlatforms=true always (eligibility out of scope)
+	NoPipeline  bool // PipelineOnly=false
+	FixNLP      *bool
+	FixFuzzy    *bool
+	NoBoosts    bool
+	BoostWords  []string
+	Thresholds  []int
+	NoNegLimit  bool
 }
 
 // Options draws a SearchOptions value.
